@@ -9,6 +9,9 @@ CONFIGS = {
           ("o_ss", dict(progs=[[O(2)], [O(3)]], MaxNow=0)),
           ("o_twice", dict(progs=[[O(0), O(2)], [O(3), O(1)]], MaxNow=1)),
           ("o_shared", dict(progs=[[O(2, 0)], [O(0, 0)], [O(0, 1)]], MaxNow=1)),
+          # the function of once 0 itself calls nsync_run_once on once 1, which shares the once_sync slot (nested initialisation)
+          ("o_nest", dict(progs=[[O(0)], [O(0, 1)]], MaxNow=1, Nest=1, init={"Nest": 1})),
+          ("o_nest_s", dict(progs=[[O(1)], [O(2)]], MaxNow=1, Nest=3, init={"Nest": 3})),
           ("o_slow", dict(progs=[[O(2, 0)], [O(0, 0)]], MaxNow=6)),
           # four callers, both once words: behaviours from TLC's simulation mode, every generated transition replayed once
           ("o_big", dict(progs=[[O(0), O(2, 1)], [O(1), O(3, 1)], [O(2)], [O(3), O(0, 1)]], MaxNow=1, _sim=(12, 500)))],
@@ -35,7 +38,7 @@ def main(tier, replay=None):
                         "2-4 callers mixing the four entry points; two once words forced onto one once_sync slot; clock 0..6",
                         "SC interleavings; TLC, SANY, gcc -fsanitize=thread instrumentation, /verif/rt trusted"]
     cfgs = CONFIGS["q"] + (CONFIGS["t"] if tier == "thorough" else [])
-    run_family(run, exe, "Once", "C07", cfgs, lambda c: dict(MaxNow=c.get("MaxNow", 0)),
+    run_family(run, exe, "Once", "C07", cfgs, lambda c: dict(MaxNow=c.get("MaxNow", 0), Nest=c.get("Nest", 0)),
                {"AtMostOnce", "NobodyEarly", "DoneMeansRan", "NoStuck"}, {"O-once", "O-prog"})
     exer = build("h_l2r")
     random_runs(run, exer, "Once", cfgs + CONFIGS["t"][:1], 300 if tier == "quick" else 60000, "C07", {"O-once", "O-prog"})
